@@ -185,7 +185,11 @@ func (cr *chainRun) checkReply(run *caseRun, reply []byte) replyInfo {
 	hitR := run.hitRBytes
 	hitUp := run.hitUpOptNonNil
 	injected := run.injectedFg
+	failSeen := run.failSeen
 	run.mu.Unlock()
+	if failSeen != "" {
+		rep.Count("outcome:upstream_"+failSeen, 1)
+	}
 
 	switch {
 	case hit && fgAsked:
@@ -239,6 +243,13 @@ func (cr *chainRun) checkReply(run *caseRun, reply []byte) replyInfo {
 		return info
 	}
 	info.truncated = m.TC()
+	if rc := m.Rcode(); (rc == 2 || rc == 5) && !fgDelivered {
+		// SERVFAIL / REFUSED synthesised by the handler (or reject): judged like any reply
+		rep.Count(fmt.Sprintf("handler_made_replies_judged:rcode%d", rc), 1)
+		if c.Opt != nil {
+			rep.Count("handler_made_replies_judged_with_client_opt", 1)
+		}
+	}
 	an, ns, ar := count41(m)
 	n := an + ns + ar
 	info.nOpt = n
